@@ -34,11 +34,11 @@ def IsSubdomainOf (h name : List Nat) : Prop := ∃ pre, h = pre ++ 46 :: name
 
 /-- The name a zone argument denotes: one trailing "." and one leading "." removed. -/
 def zoneName (z : List Nat) : List Nat :=
-  let t := trimSuffixDot z
+  let t := toLower (trimSuffixDot z)
   if hasPrefix t [46] then t.drop 1 else t
 
 /-- A dialed name as it is compared: a rooted name `example.com.` is the name `example.com`. -/
-def canonName (host : List Nat) : List Nat := trimSuffixDot host
+def canonName (host : List Nat) : List Nat := toLower (trimSuffixDot host)
 
 /-- "rule `a` matches the dialed host" — the documented rule; names (dialed and configured) are
 compared without the trailing dot of a fully qualified spelling. -/
@@ -47,12 +47,12 @@ def AddMatches (a : Add) (host : List Nat) (ip : Option (List Nat)) : Prop :=
   | .network n ones bits => ∃ x, ip = some x ∧ contains n ones bits x = true
   | .ip b => ∃ x, ip = some x ∧ ipEqual b x = true
   | .zone z => ip = none ∧ (canonName host = zoneName z ∨ IsSubdomainOf (canonName host) (zoneName z))
-  | .host h => ip = none ∧ canonName host = trimSuffixDot h
+  | .host h => ip = none ∧ canonName host = canonName h
 
 theorem normZone_eq (z : List Nat) : normZone z = 46 :: zoneName z := by
   unfold normZone zoneName
   simp only
-  generalize trimSuffixDot z = t
+  generalize toLower (trimSuffixDot z) = t
   by_cases h : hasPrefix t [46] = true
   · match t, h with
     | a :: t', h =>
@@ -76,8 +76,9 @@ private theorem zone_match_iff (z host : List Nat) :
 
 private theorem dial_none (p : State) (host : List Nat) :
     dialerForRequest p host none = true ↔
-      (∃ z, z ∈ p.zones ∧ (hasSuffix (trimSuffixDot host) z || trimSuffixDot host == z.drop 1) = true) ∨
-      (∃ h, h ∈ p.hosts ∧ (h == trimSuffixDot host) = true) := by
+      (∃ z, z ∈ p.zones ∧ (hasSuffix (canonName host) z || canonName host == z.drop 1) = true) ∨
+      (∃ h, h ∈ p.hosts ∧ (h == canonName host) = true) := by
+  unfold canonName
   rw [← List.any_eq_true, ← List.any_eq_true]
   unfold dialerForRequest
   simp only []
@@ -106,8 +107,8 @@ theorem dial_add (p : State) (a : Add) (host : List Nat) (ip : Option (List Nat)
     | network n ones bits => simp [State.add, AddMatches]
     | ip b => simp [State.add, AddMatches]
     | zone z =>
-      have hz := zone_match_iff z (trimSuffixDot host)
-      simp only [State.add, AddMatches, canonName, List.mem_append, List.mem_singleton, true_and, ← hz]
+      have hz := zone_match_iff z (canonName host)
+      simp only [State.add, AddMatches, List.mem_append, List.mem_singleton, true_and, ← hz]
       constructor
       · rintro (⟨w, hw | rfl, hm⟩ | h)
         · exact Or.inl (Or.inl ⟨w, hw, hm⟩)
@@ -118,7 +119,8 @@ theorem dial_add (p : State) (a : Add) (host : List Nat) (ip : Option (List Nat)
         · exact Or.inr h
         · exact Or.inl ⟨_, Or.inr rfl, hm⟩
     | host h =>
-      simp only [State.add, AddMatches, canonName, List.mem_append, List.mem_singleton, true_and]
+      simp only [State.add, AddMatches, List.mem_append, List.mem_singleton, true_and]
+      rw [show toLower (trimSuffixDot h) = canonName h from rfl]
       constructor
       · rintro (h1 | ⟨w, hw | rfl, hm⟩)
         · exact Or.inl (Or.inl h1)
@@ -271,6 +273,10 @@ example : dialerForRequest (run noOracles {} cfg1) (exCom ++ [46]) none = true :
 example : dialerForRequest (run noOracles {} cfg1) (aExCom ++ [46]) none = true := by decide
 example : dialerForRequest (run noOracles {} [.fromString (exCom ++ [46])]) (exCom ++ [46]) none = true := by decide
 example : dialerForRequest (run noOracles {} cfg1) (aexCom ++ [46]) none = false := by decide
+/-- Letter case (regression for the repaired defect `perhost-case-sensitive`): "EX.com" dialed against
+"*.ex.com", and a rule written "EX.COM" against the dialed "ex.com". -/
+example : dialerForRequest (run noOracles {} cfg1) ([69, 88] ++ exCom.drop 2) none = true := by decide
+example : dialerForRequest (run noOracles {} [.fromString [69, 88, 46, 67, 79, 77]]) exCom none = true := by decide
 example : dialerForRequest (run noOracles {} [.call (.network [10, 0, 0, 0] 8 32)]) [] (some [10, 9, 8, 7]) = true := by decide
 example : dialerForRequest (run noOracles {} [.call (.network [10, 0, 0, 0] 8 32)]) [] (some [11, 9, 8, 7]) = false := by decide
 example : dialerForRequest (run noOracles {} [.call (.ip [1, 2, 3, 4])]) []
